@@ -3339,7 +3339,11 @@ class Line(SpecializedText):
         marker = context[0].strip()
         if self.memo.section_bubble_up_kludge:
             self.memo.section_bubble_up_kludge = False
-        elif len(marker) < 4:
+        elif len(marker) < 4 and self.eofcheck:
+            # Only a marker line that really is the last line of its block can turn out to
+            # be ordinary text. When eofcheck is off, the EOFError comes from a section
+            # bubbling up through the (complete) title this state has just accepted:
+            # re-reading its lines as text would parse the section's content twice.
             self.state_correction(context)
         if self.eofcheck:  # ignore EOFError with sections
             src, srcline = self.state_machine.get_source_and_line()
